@@ -2,7 +2,6 @@
    rlex (rrender f) = Ok (rtoks f). *)
 From V.model Require Import Base RelLex RelParse RelAcc RelGrammar.
 From V.proofs Require Import BaseP RelLexP.
-Set Default Timeout 60.
 
 (* ---- fuel irrelevance, one-step unfolding ---- *)
 Lemma rlex_go_fuel f1 : forall f2 s, length s <= f1 -> length s <= f2 -> rlex_go f1 s = rlex_go f2 s.
